@@ -176,6 +176,7 @@ type c05bCase struct {
 	leases []*c05bLease
 	byID   map[string]*c05bLease
 	bySec  map[string]*c05bLease
+	roles  map[string]bool // token roles created so far (roleCreate)
 	// namespaces (only in namespace cases): index 1, 2
 	nss    []*namespace.Namespace
 	nsKeys map[string][][]byte
@@ -649,6 +650,39 @@ func (x *c05bRun) tokCreate(ttl, emax int64, ren bool) {
 	x.emit(res, "tokcreate", vh.I(ttl), vh.I(emax), c05bB(ren), vh.I(x.now))
 }
 
+// roleCreate: an orphan token created through a token role (auth/token/create/<role>): the role carries its own
+// token_explicit_max_ttl (remax, 0 = none), the request its own explicit_max_ttl (emax, 0 = none); the token is bound by
+// the lesser of the two at creation AND at every renewal (authRenew re-reads the role).
+func (x *c05bRun) roleCreate(ttl, emax, remax int64, ren bool) {
+	x.now++
+	k := x.k
+	role := fmt.Sprintf("c05r%d", remax)
+	if k.roles == nil {
+		k.roles = map[string]bool{}
+	}
+	if !k.roles[role] {
+		d := map[string]any{"allowed_policies": "c05bpol", "orphan": true}
+		if remax > 0 {
+			d["token_explicit_max_ttl"] = fmt.Sprintf("%ds", remax)
+		}
+		if cl, _ := vhReq(k.c, logical.UpdateOperation, "auth/token/roles/"+role, k.root, d); cl != "ok" {
+			k.t.Fatalf("token role %s: %s", role, cl)
+		}
+		k.roles[role] = true
+	}
+	d := map[string]any{"ttl": fmt.Sprintf("%ds", ttl), "policies": []string{"c05bpol"}, "renewable": ren}
+	if emax > 0 {
+		d["explicit_max_ttl"] = fmt.Sprintf("%ds", emax)
+	}
+	cl, resp := vhReq(k.c, logical.UpdateOperation, "auth/token/create/"+role, k.root, d)
+	res := c05bErrClass(resp, cl)
+	if cl == "ok" && resp != nil && resp.Auth != nil {
+		l := k.add(k.tokenLeaseID(resp.Auth.ClientToken), "", resp.Auth.ClientToken)
+		res = fmt.Sprintf("ok:%d:%d", l.ord, c05bMin(resp.Auth.TTL))
+	}
+	x.emit(res, "rolecreate", vh.I(ttl), vh.I(emax), vh.I(remax), c05bB(ren), vh.I(x.now))
+}
+
 // rootCreate: a non-expiring root token (lease with zero expiry, tracked in `nonexpiring`)
 func (x *c05bRun) rootCreate() {
 	x.now++
@@ -1041,6 +1075,23 @@ func c05bDirected() []func(x *c05bRun) {
 			x.restart(0)
 			x.renew(1, 60)
 		},
+		func(x *c05bRun) { // role tokens: the request's explicit maximum survives renewals (role without / with a larger / with a smaller one)
+			x.roleCreate(600, 3600, 0, true)
+			x.renew(1, 18000)
+			x.age(1, 3000)
+			x.renew(1, 18000)
+			x.roleCreate(600, 3600, 7200, true)
+			x.renew(2, 18000)
+			x.roleCreate(600, 7200, 3600, true)
+			x.renew(3, 18000)
+			x.roleCreate(600, 0, 7200, true)
+			x.renew(4, 18000)
+			x.roleCreate(600, 0, 0, true)
+			x.renew(5, 18000)
+			x.restart(1)
+			x.renew(1, 18000)
+			x.renew(5, 4000000)
+		},
 		func(x *c05bRun) { // leases issued to a batch token: renewal within the maximum; expired (lost timer) => refused; non-renewable (F64)
 			x.batchReg(3600, 7200, true)
 			x.renew(1, 600)
@@ -1283,6 +1334,8 @@ func TestVerifC05b(t *testing.T) {
 				} else {
 					x.reg(ownerOrd, r.PickInt(ttls), r.PickInt(maxs), !r.Chance(20))
 				}
+			case w < 24:
+				x.roleCreate(r.PickInt(ttls), r.PickInt([]int64{0, 3600, 7200, 172800}), r.PickInt([]int64{0, 7200}), !r.Chance(20))
 			case w < 29:
 				x.tokCreate(r.PickInt(ttls), r.PickInt([]int64{0, 0, 7200, 172800}), !r.Chance(20))
 			case w < 53:
